@@ -557,6 +557,10 @@ pub fn gen_specs(t: &mut Tape, c: &DmlCfg) -> Vec<TSpec> {
                     s.uniques.push(vec![u, u2]);
                 } else {
                     s.uniques.push(vec![u]);
+                    // sometimes a second single-column UNIQUE constraint
+                    if ncols >= 3 && u2 != u && !s.pk.contains(&u2) && t.chance(1, 3) {
+                        s.uniques.push(vec![u2]);
+                    }
                 }
             }
         }
